@@ -306,6 +306,33 @@ fn protocols(args: &Args) -> i32 {
 	rec("process_block_next", &mut || { let _ = chain.process_block(next.clone(), Options::SKIP_POW); });
 	rec("process_block_known", &mut || { let _ = chain.process_block(next.clone(), Options::SKIP_POW); });
 	rec("sync_block_headers", &mut || { let _ = chain.sync_block_headers(&[fork.header.clone()], chain.header_head().unwrap(), Options::SKIP_POW); });
+	// the state-sync (PIBD) side works on the same two locks through the desegmenter's own handles
+	if let Ok(arch) = chain.txhashset_archive_header() {
+		rec("desegmenter", &mut || { let _ = chain.desegmenter(&arch); });
+		if let Ok(d) = chain.desegmenter(&arch) {
+			let status = Arc::new(grin_chain::SyncState::new());
+			rec("deseg_check_progress", &mut || {
+				if let Some(x) = d.write().as_mut() {
+					let _ = x.check_progress(status.clone());
+				}
+			});
+			rec("deseg_check_update_leaf_set_state", &mut || {
+				if let Some(x) = d.write().as_mut() {
+					let _ = x.check_update_leaf_set_state();
+				}
+			});
+			rec("deseg_next_desired_segments", &mut || {
+				if let Some(x) = d.write().as_mut() {
+					let _ = x.next_desired_segments(10);
+				}
+			});
+			rec("deseg_apply_next_segments", &mut || {
+				if let Some(x) = d.write().as_mut() {
+					let _ = x.apply_next_segments();
+				}
+			});
+		}
+	}
 	verif::trace(false);
 	let events = verif::take_events();
 	let evs: Vec<Value> = events.iter().map(|e| json!([e.seq, e.thread, e.kind, e.id])).collect();
